@@ -640,6 +640,9 @@ func (s *Serializer) Deserialize(src []byte, dst *ParsedJson) (*ParsedJson, erro
 				return dst, errors.New("tags extended beyond tape")
 			}
 			dst.Tape[off] = binary.LittleEndian.Uint64(values[:8])
+			if Tag(dst.Tape[off]>>JSONTAGOFFSET) != TagFloat {
+				return dst, fmt.Errorf("reading %v: stored entry is not a float", tag)
+			}
 			dst.Tape[off+1] = binary.LittleEndian.Uint64(values[8:16])
 			values = values[16:]
 			off += 2
